@@ -442,10 +442,14 @@ func MergeMapCallSources(a, b MapCallSource) (MapCallSource, error) {
 				return nil, fmt.Errorf("map length mismatch %d vs %d",
 					len(ka), len(kb))
 			}
+			missing, found := "", false
 			for k := range ka {
-				if _, ok := kb[k]; !ok {
-					return nil, fmt.Errorf("map key missing %q", k)
+				if _, ok := kb[k]; !ok && (!found || k < missing) {
+					missing, found = k, true
 				}
+			}
+			if found {
+				return nil, fmt.Errorf("map key missing %q", missing)
 			}
 		case ModeNullMapCall:
 			switch b.CallMode() {
